@@ -18,7 +18,7 @@
      EvDelReg d x         Delete attached delFunc d to node x;   EvDelRun d   delFunc d ran
    cf v / ccn x / ccv v / cdr d count EvFinal v / EvConstruct x _ _ / EvConstruct _ v _ / EvDelRun d. *)
 From GL Require Import Conc.Cache Conc.CacheLemmas Conc.CacheInv Conc.CacheProofs Conc.CacheTheorems.
-From GL Require Import Conc.CacheLts Conc.CacheLtsProofs Conc.CacheLtsInv.
+From GL Require Import Conc.CacheLts Conc.CacheLtsProofs Conc.CacheLtsInv Conc.CacheLtsClose.
 From Coq Require Import Lia.
 
 (* ================================================================ Part A: sequential semantics *)
@@ -184,79 +184,85 @@ Theorem C17_seq_op_is_a_schedule : forall s o, s_panic (fst (step_raw s o)) = fa
 Proof. exact seq_is_a_schedule. Qed.
 Print Assumptions C17_seq_op_is_a_schedule.
 
-(* B2. ALL interleavings of Get / Release / Delete / Evict / EvictNS / EvictAll / SetCapacity by any number
-       of goroutines on the open cache ([lreach_o]: every finite sequence of enabled actions).
-       Named _partial because Close is excluded (B3) and because of what the LTS abstracts (atomicity
-       granularity, Go memory model, bucket-array resize) — within the LTS these are complete. *)
-Theorem C17_one_live_value_lts_partial : forall L, lreach_o L ->
+(* B2. ALL interleavings of Get / Release / Delete / Evict / EvictNS / EvictAll / SetCapacity / Close(false) by
+       any number of goroutines ([lreach_c]: every finite sequence of enabled actions other than the start
+       of a force-close; Close(false) is enabled whenever no goroutine holds Cache.mu.RLock).  In particular
+       the states of the open cache ([lreach_o], no Close at all) are covered: [lreach_o_c]. *)
+Theorem C17_one_live_value_lts_partial : forall L, lreach_c L ->
   forall h1 h2 n1 n2, handle_node (l_g L) h1 = Some n1 -> handle_node (l_g L) h2 = Some n2 -> keyof n1 = keyof n2 ->
     n1 = n2 /\
     exists v, handle_value (l_g L) h1 = Some v /\ handle_value (l_g L) h2 = Some v /\
               ccn (n_id n1) (s_log (l_g L)) = 1%nat /\ ccv v (s_log (l_g L)) = 1%nat /\ cf v (s_log (l_g L)) = 0%nat.
-Proof. exact one_live_value_lts. Qed.
+Proof. exact one_live_value_ltc. Qed.
 Print Assumptions C17_one_live_value_lts_partial.
 
-Theorem C17_construct_once_lts_partial : forall L, lreach_o L ->
+Theorem C17_construct_once_lts_partial : forall L, lreach_c L ->
   forall x v, (ccn x (s_log (l_g L)) <= 1)%nat /\ (ccv v (s_log (l_g L)) <= 1)%nat.
-Proof. exact construct_once_lts. Qed.
+Proof. exact construct_once_ltc. Qed.
 Print Assumptions C17_construct_once_lts_partial.
 
-Theorem C17_finalise_at_most_once_lts_partial : forall L, lreach_o L -> forall v, (cf v (s_log (l_g L)) <= 1)%nat.
-Proof. exact finalise_at_most_once_lts. Qed.
+Theorem C17_finalise_at_most_once_lts_partial : forall L, lreach_c L -> forall v, (cf v (s_log (l_g L)) <= 1)%nat.
+Proof. exact finalise_at_most_once_ltc. Qed.
 Print Assumptions C17_finalise_at_most_once_lts_partial.
 
-Theorem C17_finalise_not_early_lts_partial : forall L, lreach_o L ->
+Theorem C17_finalise_not_early_lts_partial : forall L, lreach_c L ->
   forall x v sz, In (EvConstruct x v sz) (s_log (l_g L)) -> (1 <= cf v (s_log (l_g L)))%nat ->
     handles_on x (s_handles (l_g L)) = 0%nat.
-Proof. exact finalise_not_early_lts. Qed.
+Proof. exact finalise_not_early_ltc. Qed.
 Print Assumptions C17_finalise_not_early_lts_partial.
 
-Theorem C17_finalise_or_live_lts_partial : forall L, lreach_o L ->
+Theorem C17_finalise_or_live_lts_partial : forall L, lreach_c L ->
   forall x v sz, In (EvConstruct x v sz) (s_log (l_g L)) ->
     cf v (s_log (l_g L)) = 1%nat \/
     (cf v (s_log (l_g L)) = 0%nat /\ exists n, In n (s_nodes (l_g L)) /\ n_id n = x /\ n_val n = Some v).
-Proof. exact finalise_or_live_lts. Qed.
+Proof. exact finalise_or_live_ltc. Qed.
 Print Assumptions C17_finalise_or_live_lts_partial.
 
-Theorem C17_delfunc_at_most_once_lts_partial : forall L, lreach_o L -> forall d, (cdr d (s_log (l_g L)) <= 1)%nat.
-Proof. exact delfunc_at_most_once_lts. Qed.
+Theorem C17_delfunc_at_most_once_lts_partial : forall L, lreach_c L -> forall d, (cdr d (s_log (l_g L)) <= 1)%nat.
+Proof. exact delfunc_at_most_once_ltc. Qed.
 Print Assumptions C17_delfunc_at_most_once_lts_partial.
 
-Theorem C17_delfunc_not_early_lts_partial : forall L, lreach_o L ->
+Theorem C17_delfunc_not_early_lts_partial : forall L, lreach_c L ->
   forall d x, In (EvDelReg d x) (s_log (l_g L)) -> (1 <= cdr d (s_log (l_g L)))%nat ->
     handles_on x (s_handles (l_g L)) = 0%nat.
-Proof. exact delfunc_not_early_lts. Qed.
+Proof. exact delfunc_not_early_ltc. Qed.
 Print Assumptions C17_delfunc_not_early_lts_partial.
 
-Theorem C17_delfunc_ran_or_pending_lts_partial : forall L, lreach_o L -> forall d, d < s_next_did (l_g L) ->
+Theorem C17_delfunc_ran_or_pending_lts_partial : forall L, lreach_c L -> forall d, d < s_next_did (l_g L) ->
   cdr d (s_log (l_g L)) = 1%nat \/
   (cdr d (s_log (l_g L)) = 0%nat /\ exists n, In n (s_nodes (l_g L)) /\ In d (n_dels n)).
-Proof. exact delfunc_ran_or_pending_lts. Qed.
+Proof. exact delfunc_ran_or_pending_ltc. Qed.
 Print Assumptions C17_delfunc_ran_or_pending_lts_partial.
 
 (* in EVERY reachable state of the LTS, i.e. whenever the lru lock is free — not only between operations *)
-Theorem C17_capacity_respected_lts_partial : forall L, lreach_o L ->
+Theorem C17_capacity_respected_lts_partial : forall L, lreach_c L ->
   s_used (l_g L) = used_sum (s_nodes (l_g L)) /\ (s_used (l_g L) <= Z.of_N (s_cap (l_g L)))%Z.
-Proof. exact capacity_respected_lts. Qed.
+Proof. exact capacity_respected_ltc. Qed.
 Print Assumptions C17_capacity_respected_lts_partial.
 
 (* ref = outstanding handles + (1 if linked in the LRU) + references held by instructions still to run *)
-Theorem C17_ref_census_lts_partial : forall L, lreach_o L -> forall n, In n (s_nodes (l_g L)) ->
+Theorem C17_ref_census_lts_partial : forall L, lreach_c L -> forall n, In n (s_nodes (l_g L)) ->
   n_ref n = (Z.of_nat (handles_on (n_id n) (s_handles (l_g L))) + (if resident n then 1 else 0)
              + pend_ref (n_id n) (l_thr L))%Z /\ (0 <= n_ref n)%Z.
-Proof. exact ref_census_lts. Qed.
+Proof. exact ref_census_ltc. Qed.
 Print Assumptions C17_ref_census_lts_partial.
 
-(* a node whose count is 0 is exactly one whose zero-check (Cache.delete's re-check under the bucket
-   lock) is still to run: no node is leaked and none is finalised without that re-check *)
-Theorem C17_zero_ref_is_pending_lts_partial : forall L, lreach_o L -> forall n, In n (s_nodes (l_g L)) ->
-  n_ref n = 0%Z -> zero_pending (l_thr L) (n_id n) = true.
-Proof. exact zero_ref_is_pending_lts. Qed.
+(* a node whose count is 0 (on the closed cache: and which still has a value or a delFunc) is exactly one
+   whose zero-check — Cache.delete's re-check under the bucket lock, or the re-read on the closed path —
+   is still to run: no node is leaked and none is finalised without that check *)
+Theorem C17_zero_ref_is_pending_lts_partial : forall L, lreach_c L -> forall n, In n (s_nodes (l_g L)) ->
+  n_ref n = 0%Z -> (s_closed (l_g L) = false \/ n_val n <> None \/ n_dels n <> []) ->
+  zero_pending (l_thr L) (n_id n) = true.
+Proof. exact zero_ref_is_pending_ltc. Qed.
 Print Assumptions C17_zero_ref_is_pending_lts_partial.
 
-Theorem C17_no_panic_lts_partial : forall L, lreach_o L -> s_panic (l_g L) = false.
-Proof. exact no_panic_lts. Qed.
+Theorem C17_no_panic_lts_partial : forall L, lreach_c L -> s_panic (l_g L) = false.
+Proof. exact no_panic_ltc. Qed.
 Print Assumptions C17_no_panic_lts_partial.
+
+Theorem C17_open_states_covered : forall L, lreach_o L -> lreach_c L.
+Proof. exact lreach_o_c. Qed.
+Print Assumptions C17_open_states_covered.
 
 (* non-vacuity of B2: a reachable interleaving in which goroutine 2's Get revives node 0 between goroutine
    1's decrement to zero and its zero-check; the re-check then leaves the node alone *)
@@ -271,6 +277,16 @@ Example C17_nonvacuous_lts :
 Proof.
   eexists. split; [vm_compute; reflexivity|]. split; [|vm_compute; auto].
   apply (lrun_o_reach revive_trace (linit false 0)); [apply (lo_init false 0)|vm_compute; reflexivity].
+Qed.
+
+(* the schedule of the refutation below, under the repaired semantics, is a reachable interleaving WITH a
+   Close(false) overlapping a pending zero-check; the revived value stays alive *)
+Example C17_nonvacuous_lts_close :
+  exists L, lrun_c (linit false 0) close_race_trace = Some L /\ lreach_c L /\ s_closed (l_g L) = true /\
+            handle_value (l_g L) 1 = Some 0 /\ cf 0 (s_log (l_g L)) = 0%nat.
+Proof.
+  eexists. split; [vm_compute; reflexivity|]. split; [|vm_compute; auto].
+  apply (lrun_c_reach close_race_trace (linit false 0)); [apply (lc_init false 0)|vm_compute; reflexivity].
 Qed.
 
 (* B3. Close.  The faithful model of the code as it was ([exec_old]) REFUTES "finalised only after every
@@ -294,12 +310,12 @@ Theorem C17_close_race_repaired :
 Proof. exact close_race_repaired. Qed.
 Print Assumptions C17_close_race_repaired.
 
-(* Full statements that remain open for the interleaved semantics with Close (proved above for the
-   sequential semantics, Part A):
-     forall L, lreach_q L -> ... the B2 statements ...            (lreach_q: Close starts only while every
-                                                                    other goroutine is idle)
-     forall L, lreach_q L -> s_closed (l_g L) = true -> s_handles (l_g L) = [] -> (all goroutines idle) ->
-       forall x v sz, In (EvConstruct x v sz) (s_log (l_g L)) -> cf v (s_log (l_g L)) = 1       (exactly once at the end)
+(* Full statements that remain open for the interleaved semantics:
+     the B2 statements for traces that also contain force-close (Close(true)); the model has it as one
+       action, and the property itself exempts it from the release ordering;
+     forall L, lreach_c L -> s_closed (l_g L) = true -> s_handles (l_g L) = [] -> all_idle (l_thr L) ->
+       forall x v sz, In (EvConstruct x v sz) (s_log (l_g L)) -> cf v (s_log (l_g L)) = 1      (exactly once at the end;
+       likewise for delFuncs) — proved for the sequential semantics in Part A.
    The overlap of Close(true)'s callFinalizer with a concurrent Release (a value finalised twice on the
    code as it was; reproduced by the same experiment and repaired by the same commit, which makes
    callFinalizer take the value and the delFuncs exactly once under the node lock) is below the LTS's
